@@ -15,7 +15,8 @@ import traceback
 
 VERIF = os.path.dirname(os.path.dirname(os.path.abspath(__file__)))
 SPEC = os.path.join(VERIF, "spec")
-WORK = os.path.join(VERIF, ".work")
+# scratch space is per process, so that several checks can run at the same time without colliding
+WORK = os.path.join(VERIF, ".work", "run%d" % os.getpid())
 REPO = os.environ.get("VERIF_REPO", "/repo")
 PY = "/venv/bin/python"
 NPROC = max(1, min(16, os.cpu_count() or 1))
